@@ -52,20 +52,26 @@ def a(ck: Check) -> None:
     out = rets[-1].value.elts[1].id
     apps = [n for n in own_walk(f.node) if isinstance(n, ast.Call) and isinstance(n.func, ast.Attribute) and n.func.attr == "append"
             and text(n.func.value) == out]
-    if not apps:
+    # element producers: `out.append(e)` in a loop, or `out = [e for x in ...]`
+    producers = [(ap.args[0], fm.cfgn(ap), None, f.stmt_of(ap)) for ap in apps]
+    for d, v in fm.value_defs(out, fm.cfgn(rets[-1])):
+        if isinstance(v, ast.ListComp):
+            producers.append((v.elt, d, v, d.ast))
+    if not producers:
         raise AnalysisError("anchor vanished: conversion of attractor sets")
     # the reduced graph used for the reachability test
     test = next((c for c in own_walk(f.node) if isinstance(c, ast.Call) and callee_name(c) == "symbolic_attractor_test"), None)
     gname = text(test.args[2]) if test is not None and len(test.args) > 2 else None
-    for ap in apps:
-        cn = fm.cfgn(ap)
+    for e, cn, comp, pstmt in producers:
         chain = []
-        e = ap.args[0]
         probs = []
         steps = []
         cur, at = e, cn
         for _ in range(8):
             if isinstance(cur, ast.Name):
+                if comp is not None and any(isinstance(x, ast.Name) and x.id == cur.id for g_ in comp.generators for x in ast.walk(g_.target)):
+                    steps.append(("elem", comp.generators[0].iter))
+                    break
                 defs = fm.cfg.reaching_defs(cur.id, at)
                 if len(defs) != 1:
                     break
@@ -101,7 +107,7 @@ def a(ck: Check) -> None:
                 probs.append(f"the set is transferred from `{text(trans.args[1]) if len(trans.args) > 1 else '?'}`, but it was "
                              f"computed on `{gname}`")
             sp = inter.args[0]
-            sd_ = fm.single_def(sp.id, cn) if isinstance(sp, ast.Name) else None
+            sd_ = fm.single_def(sp.id, cn if isinstance(cn, type(fm.cfg.entry)) else fm.cfgn(pstmt)) if isinstance(sp, ast.Name) else None
             spv = sd_[1] if sd_ else sp
             t = text(spv)
             if not (f"{sd_p}.symbolic.mk_subspace(" in t and fm.key(spv.func.value.args[0] if isinstance(spv, ast.Call) and isinstance(spv.func, ast.Attribute)
@@ -110,15 +116,23 @@ def a(ck: Check) -> None:
                              "variables would be included)")
             if kinds[3:4] != ["elem"] or "sets" not in text(steps[3][1]):
                 probs.append("the converted sets are not the closures recorded by the seed loop")
-        ck.ob("A", fm, f.stmt_of(ap), not probs, "; ".join(probs) if probs else
-              "closure -> transfer_from(same reduced graph) -> intersect(node space)")
-    # the conversion loop covers every recorded closure, in order
-    lp = [l for l in fm.cfg.enclosing_loops(fm.cfgn(apps[0])) if isinstance(l, ast.For)]
+        ck.ob("A", fm, pstmt, not probs, "; ".join(probs) if probs else
+              "closure -> transfer_from(same reduced graph) -> intersect(node space)",
+              key="set conversion" if len(producers) == 1 else None)
+    # the conversion covers every recorded closure, in order
     probs = []
-    if not lp or any(isinstance(x, (ast.If, ast.Continue, ast.Break)) for x in ast.walk(lp[0])) or \
-            callee_name(lp[0].iter) if isinstance(lp[0].iter, ast.Call) else False:
-        probs.append("not every recorded closure is converted, or the order is changed")
-    ck.ob("A", fm, lp[0] if lp else f.node, not probs, "; ".join(probs) if probs else "all closures converted in recording order",
+    comp0 = producers[0][2]
+    if comp0 is not None:
+        if len(comp0.generators) != 1 or comp0.generators[0].ifs or isinstance(comp0.generators[0].iter, ast.Call):
+            probs.append("not every recorded closure is converted, or the order is changed")
+        anchor = producers[0][3]
+    else:
+        lp = [l for l in fm.cfg.enclosing_loops(producers[0][1]) if isinstance(l, ast.For)]
+        if not lp or any(isinstance(x, (ast.If, ast.Continue, ast.Break)) for x in ast.walk(lp[0])) or \
+                (callee_name(lp[0].iter) if isinstance(lp[0].iter, ast.Call) else False):
+            probs.append("not every recorded closure is converted, or the order is changed")
+        anchor = lp[0] if lp else f.node
+    ck.ob("A", fm, anchor, not probs, "; ".join(probs) if probs else "all closures converted in recording order",
           key="conversion loop")
 
 
@@ -132,7 +146,24 @@ def b(ck: Check) -> None:
     probs = []
     apps = {nm: [n for n in own_walk(f.node) if isinstance(n, ast.Call) and isinstance(n.func, ast.Attribute) and n.func.attr == "append"
                  and text(n.func.value) == nm] for nm in names}
-    if any(len(v) != 1 for v in apps.values()):
+    rn = fb.cfgn(rets[-1])
+    comps = {nm: [v for _, v in fb.value_defs(nm, rn)] for nm in names}
+    if all(not v for v in apps.values()) and all(len(c_) == 1 and isinstance(c_[0], ast.ListComp) for c_ in comps.values()):
+        # both lists are comprehensions: sets over the attractors, seeds over the sets (or the attractors), no filter
+        cs, ct = comps[names[0]][0], comps[names[1]][0]
+        for c_ in (cs, ct):
+            if len(c_.generators) != 1 or c_.generators[0].ifs:
+                probs.append("an attractor can be recorded with a seed but no set (or the reverse)")
+        gt, gs = ct.generators[0], cs.generators[0]
+        if text(gt.iter) != "attractors":
+            probs.append(f"the sets range over `{text(gt.iter)}`")
+        if text(ct.elt) != f"{text(gt.target)}.vertices()":
+            probs.append("the recorded set is not the vertex set of the loop's attractor")
+        src_ok = (text(gs.iter) == names[1] and f"next({text(gs.target)}.items())" in text(cs.elt)) or \
+                 (text(gs.iter) == "attractors" and f"next({text(gs.target)}.vertices().items())" in text(cs.elt))
+        if not src_ok:
+            probs.append("the seed is not taken from the recorded vertex set")
+    elif any(len(v) != 1 for v in apps.values()):
         probs.append("seeds and sets are not each appended at exactly one place")
     else:
         a1, a2 = (apps[names[0]][0], apps[names[1]][0])
@@ -190,7 +221,12 @@ def c(ck: Check) -> None:
         if so is not None and not is_false(so):
             probs.append("sets requested with seeds_only (no sets are computed)")
     st = [e for e in fm.field_events() if e.kind == "store" and e.field == "attractor_sets"]
-    if not st or not all(text(e.value).endswith("[1]") for e in st):
+    def second_component(e) -> bool:
+        v = e.value
+        vals = [x for _, x in fm.value_defs(v.id, e.cfgn)] if isinstance(v, ast.Name) else [v]
+        return bool(vals) and all(x is not None and (is_empty_list(x) or text(x).endswith("[1]")) for x in vals) \
+            and any(x is not None and text(x).endswith("[1]") for x in vals)
+    if not st or not all(second_component(e) for e in st):
         probs.append("the stored value is not the set component of the result")
     asr = [n for n in own_walk(f.node) if isinstance(n, ast.Assert) and "is not None" in text(n.test)]
     if not asr:
